@@ -45,11 +45,50 @@ def check(ctx, only_h1: bool = False, h1_rule: str = "C13-H1") -> None:
         ctx.rule("C13-H4", "demotion stores solved := False and an issue naming the threshold; keeping stores nothing", 2)
     if not only_h1:
         ctx.rule("C13-H5", "confidence_threshold is consumed once; benchmark uses the same >=", 3)
-    ctx.require("threshold" in f.params, "predict lost its threshold parameter")
-    thr = "threshold"
     solved, issue, conf = pl.solved_col.text, pl.issue_col.text, texts(ctx.balancer.get("__confidence_col"))
     conf_store = [s for s in st.stores if s.keytexts & conf and s.func is f]
     ctx.require(conf_store, "predict no longer stores the confidence column")
+    thr_vals = ctx.balancer.get("confidence_threshold")
+    # the decision site: predict itself (it receives the threshold), or a later stage of the pipeline that demotes
+    # rows under a comparison with the Balancer's threshold
+    P = f
+    dst = st
+    if "threshold" in f.params and any(solved in s.keytexts and s.func is f for s in st.stores):
+        thr = "threshold"
+
+        def is_thr(e) -> bool:
+            return isinstance(e, ast.Name) and e.id == thr
+    else:
+        def is_thr_in(stage, e) -> bool:
+            if not isinstance(e, (ast.Name, ast.Attribute)) or stage.env is None:
+                return False
+            try:
+                v = ctx.ev.eval(e, stage.env)
+            except Exception:
+                return False
+            return bool(v) and v == thr_vals
+
+        cands = []
+        for x in pl.stages:
+            if x.index <= st.index:
+                continue
+            for s_ in x.stores:
+                if solved in s_.keytexts and isinstance(s_.value, ast.Constant) and s_.value.value is False and any(is_thr_in(x, n) for c, _p in s_.raw_guards for n in ast.walk(c)):
+                    cands.append((x, s_))
+        ctx.require(cands, "neither predict nor a later stage demotes rows under a comparison with the confidence threshold")
+        ctx.require(len({id(x) for x, _ in cands}) == 1, "rows are demoted under the threshold in more than one stage")
+        dst = cands[0][0]
+        f = cands[0][1].func
+        thr = "<threshold>"
+
+        def is_thr(e) -> bool:
+            return is_thr_in(dst, e)
+
+        ctx.note("C13: the accept/demote decision is taken in %s (after predict), analysed there" % f.qualname.split("synrbl.", 1)[-1])
+
+    def mentions_thr(e) -> bool:
+        return any(is_thr(n) for n in ast.walk(e))
+
     conf_names = set()
     for s in conf_store:
         # the stored value with representation-only wrappers stripped
@@ -62,12 +101,27 @@ def check(ctx, only_h1: bool = False, h1_rule: str = "C13-H1") -> None:
             else:
                 break
         if isinstance(v, ast.Name):
-            conf_names.add(v.id)
+            if f is P:
+                conf_names.add(v.id)
         else:
             ctx.finding(h1_rule, "confidence_prediction.ConfidencePredictor.predict:stored-value", s.where(), "the stored confidence %s is a transformation of the value that is compared with the threshold; the reported confidence and the verdict can disagree" % unparse(s.value)[:50])
-    demote = [s for s in st.stores if solved in s.keytexts and s.func is f]
-    ctx.require(demote, "predict no longer demotes rows (store to the solved column vanished)")
-    cname = "confidence_prediction.ConfidencePredictor.predict"
+    if f is not P:
+        # the decision reads the stored confidence back from the row: `c = row[conf]` / `row.get(conf)`
+        for n in own_nodes(f.node):
+            if isinstance(n, ast.Assign) and len(n.targets) == 1 and isinstance(n.targets[0], ast.Name):
+                v = n.value
+                key = None
+                if isinstance(v, ast.Subscript):
+                    key = v.slice
+                elif isinstance(v, ast.Call) and isinstance(v.func, ast.Attribute) and v.func.attr == "get" and v.args:
+                    key = v.args[0]
+                if key is not None and texts(ctx.ev.eval(key, dst.env)) & conf:
+                    conf_names.add(n.targets[0].id)
+        ctx.require(conf_names, "the decision site %s does not read the stored confidence into a local" % f.name)
+    demote = [s for s in dst.stores if solved in s.keytexts and s.func is f]
+    ctx.require(demote, "the decision site no longer demotes rows (store to the solved column vanished)")
+    cname = f.qualname.split("synrbl.", 1)[-1] if f is not P else "confidence_prediction.ConfidencePredictor.predict"
+    st_P, st = st, dst
     # ---------------------------------------------------------------- H1
     for d in demote:
         cmp_ok = False
@@ -80,11 +134,11 @@ def check(ctx, only_h1: bool = False, h1_rule: str = "C13-H1") -> None:
                 if nc is None:
                     continue
                 l, op, r = nc
-                if thr in names_in(l) | names_in(r):
+                if mentions_thr(l) or mentions_thr(r):
                     # normalise to  <conf> op <threshold>
-                    if isinstance(r, ast.Name) and r.id == thr:
+                    if is_thr(r):
                         a, o = l, op
-                    elif isinstance(l, ast.Name) and l.id == thr:
+                    elif is_thr(l):
                         a, o = r, {"<": ">", ">": "<", "<=": ">=", ">=": "<="}.get(op, op)
                     else:
                         seen.append(unparse(cc))
@@ -107,9 +161,9 @@ def check(ctx, only_h1: bool = False, h1_rule: str = "C13-H1") -> None:
             for c, p in g:
                 for cc, pp in split_cond(c, p):
                     nc = normal_compare(cc, pp)
-                    if nc and thr in names_in(nc[0]) | names_in(nc[2]):
+                    if nc and (mentions_thr(nc[0]) or mentions_thr(nc[2])):
                         l, op, r = nc
-                        o = op if (isinstance(r, ast.Name) and r.id == thr) else {"<": ">", ">": "<", "<=": ">=", ">=": "<="}.get(op, op)
+                        o = op if is_thr(r) else {"<": ">", ">": "<", "<=": ">=", ">=": "<="}.get(op, op)
                         keep = o == ">="
             ctx.instance(h1_rule, "counter %s += on the keeping branch (>=)" % n.target.id, f.loc(n), ok=keep)
             if not keep:
@@ -117,7 +171,7 @@ def check(ctx, only_h1: bool = False, h1_rule: str = "C13-H1") -> None:
     if only_h1:
         return
     # ---------------------------------------------------------------- H2
-    uses = [n for n in own_nodes(f.node) if isinstance(n, ast.Name) and n.id == thr and isinstance(n.ctx, ast.Load)]
+    uses = [n for n in own_nodes(f.node) if isinstance(n, (ast.Name, ast.Attribute)) and isinstance(n.ctx, ast.Load) and is_thr(n)]
     for u in uses:
         stmt = enclosing_stmt(u)
         kind = None
@@ -150,7 +204,7 @@ def check(ctx, only_h1: bool = False, h1_rule: str = "C13-H1") -> None:
     ctx.require(len(uses) >= 1, "threshold is never used in predict")
     # threshold must not be rebound
     for n in own_nodes(f.node):
-        if isinstance(n, ast.Name) and n.id == thr and isinstance(n.ctx, ast.Store):
+        if f is P and isinstance(n, ast.Name) and n.id == thr and isinstance(n.ctx, ast.Store):
             ctx.finding("C13-H2", cname + ":threshold-rebound", f.loc(n), "the threshold parameter is reassigned inside predict")
     # ---------------------------------------------------------------- H3
     method = inst.get("solved_by_method")
@@ -161,18 +215,33 @@ def check(ctx, only_h1: bool = False, h1_rule: str = "C13-H1") -> None:
         ctx.finding("C13-H3", "Balancer.conf_predictor:solved_by_method", "synrbl/balancing.py:1", "the confidence filter is bound to method %s but the MCS validator writes %s" % (sorted(map(repr, method)), sorted(map(repr, mcs_val))))
     mval = next(iter(method)).value if len(method) == 1 else None
     sb = pl.solved_by_col.text
-    for s in st.stores:
-        if s.func is not f:
-            continue
-        scoped = any(a.kind == "cmp" and sb in a.keys and a.op == "==" and a.value == mval for a in s.atoms)
-        ctx.instance("C13-H3", "store %s to %s is scoped to solved_by == %r" % (s.where(), sorted(map(str, s.keytexts)), mval), s.where(), ok=scoped)
-        if not scoped:
-            ctx.finding("C13-H3", cname + ":scope:" + "|".join(sorted(map(str, s.keytexts))), s.where(), "predict writes %s of rows that are not restricted to solved_by == %r" % (sorted(map(str, s.keytexts)), mval))
+    def by_method(s) -> bool:
+        return any(a.kind == "cmp" and sb in a.keys and a.op == "==" and a.value == mval for a in s.atoms)
+
+    def by_presence(s) -> bool:
+        # rows that carry a confidence: `conf in row`, `row[conf] is not None`, `c = row.get(conf); c is not None`
+        for a in s.atoms:
+            if a.kind == "haskey" and set(map(str, a.keys)) & conf and a.op == "in":
+                return True
+            if a.kind == "cmp" and set(map(str, a.keys)) & conf and a.op in ("is not", "!=") and a.value is None:
+                return True
+            if a.kind == "var" and a.name in conf_names and a.op in ("is not", "!=") and a.value is None:
+                return True
+        return False
+
+    for stage_, g_ in ([(st, f)] if f is P else [(st_P, P), (st, f)]):
+        for s in stage_.stores:
+            if s.func is not g_:
+                continue
+            scoped = by_method(s) or (g_ is not P and by_presence(s))
+            ctx.instance("C13-H3", "store %s to %s is scoped to solved_by == %r%s" % (s.where(), sorted(map(str, s.keytexts)), mval, " (or to rows that carry a confidence)" if g_ is not P else ""), s.where(), ok=scoped)
+            if not scoped:
+                ctx.finding("C13-H3", (cname if g_ is f else "confidence_prediction.ConfidencePredictor.predict") + ":scope:" + "|".join(sorted(map(str, s.keytexts))), s.where(), "%s writes %s of rows that are not restricted to solved_by == %r%s (guards: %s)" % (g_.name, sorted(map(str, s.keytexts)), mval, " or to the rows that were given a confidence" if g_ is not P else "", s.atoms))
     # ---------------------------------------------------------------- H4
     for d in demote:
         sib = [s for s in st.stores if s.func is f and c01.same_or_adjacent(s.node, d.node) and s is not d]
         iss = [s for s in sib if issue in s.keytexts]
-        names_thr = any(thr in names_in(s.value) for s in iss if s.value is not None)
+        names_thr = any(mentions_thr(s.value) for s in iss if s.value is not None)
         ctx.instance("C13-H4", "demotion branch writes issue naming the threshold", d.where(), ok=bool(iss) and names_thr)
         if not (iss and names_thr):
             ctx.finding("C13-H4", cname + ":demotion-issue", d.where(), "the demoting branch does not write an issue that names the threshold")
@@ -186,9 +255,9 @@ def check(ctx, only_h1: bool = False, h1_rule: str = "C13-H1") -> None:
         for c, p in s.raw_guards:
             for cc, pp in split_cond(c, pp if False else p):
                 nc = normal_compare(cc, pp)
-                if nc and thr in names_in(nc[0]) | names_in(nc[2]):
+                if nc and (mentions_thr(nc[0]) or mentions_thr(nc[2])):
                     l, op, r = nc
-                    o = op if (isinstance(r, ast.Name) and r.id == thr) else {"<": ">", ">": "<", "<=": ">=", ">=": "<="}.get(op, op)
+                    o = op if is_thr(r) else {"<": ">", ">": "<", "<=": ">=", ">=": "<="}.get(op, op)
                     if o == ">=":
                         ctx.finding("C13-H4", cname + ":keep-branch-store:" + "|".join(sorted(map(str, s.keytexts))), s.where(), "the keeping branch writes row field %s" % sorted(map(str, s.keytexts)))
     ctx.instance("C13-H4", "keeping branch writes no row field", f.loc(), ok=True)
@@ -208,6 +277,11 @@ def check(ctx, only_h1: bool = False, h1_rule: str = "C13-H1") -> None:
                     local.append(KeyStore(f, n, t, ctx.ev.eval(t.slice, st.env), n.value, "assign"))
     all_conf = [k for k in local if k.keytexts & conf]
     all_dem = [k for k in local if solved in k.keytexts]
+    if f is not P:
+        same = bool(st.call.args) and bool(st_P.call.args) and unparse(st.call.args[0]) == unparse(st_P.call.args[0])
+        ctx.instance("C13-H6", "the decision stage %s receives the rows predict scored (%s)" % (st.label, unparse(st.call.args[0]) if st.call.args else "?"), st.where(), ok=same)
+        if not same:
+            ctx.finding("C13-H6", cname + ":decision-over-other-rows", st.where(), "the stage that applies the threshold does not receive the row list that predict scored")
     dem_targets = {unparse(k.target.value) for k in all_dem}
     for k in all_conf:
         tv = unparse(k.target.value)
@@ -220,13 +294,14 @@ def check(ctx, only_h1: bool = False, h1_rule: str = "C13-H1") -> None:
     ctx.rule("C13-H7", "a failure of the confidence filter cannot be swallowed between predict and the return of the rows", 1)
     runf = prog.func("synrbl.balancing.Balancer.__run_pipeline")
     swallowed = None
-    prev, cur = st.call, getattr(st.call, "_parent", None)
-    while cur is not None and cur is not runf.node:
-        if isinstance(cur, ast.Try) and any(prev is b or prev in ast.walk(b) for b in cur.body):
-            for h in cur.handlers:
-                if not any(isinstance(x, ast.Raise) for x in ast.walk(h)):
-                    swallowed = h
-        prev, cur = cur, getattr(cur, "_parent", None)
+    for call_ in ([st.call] if f is P else [st_P.call, st.call]):
+        prev, cur = call_, getattr(call_, "_parent", None)
+        while cur is not None and cur is not runf.node:
+            if isinstance(cur, ast.Try) and any(prev is b or prev in ast.walk(b) for b in cur.body):
+                for h in cur.handlers:
+                    if not any(isinstance(x, ast.Raise) for x in ast.walk(h)):
+                        swallowed = h
+            prev, cur = cur, getattr(cur, "_parent", None)
     # inside predict: the per-row loop must not sit in a swallowing handler either
     for d in all_dem:
         prev, cur = d.node, getattr(d.node, "_parent", None)
@@ -259,15 +334,20 @@ def check(ctx, only_h1: bool = False, h1_rule: str = "C13-H1") -> None:
                     ok = True
                 elif m.qualname in hash_helpers:
                     ok = True
+                elif f is not P and m is f:
+                    ok = True  # the decision site itself; its uses of the threshold are judged by H2
                 ctx.instance("C13-H5", "read of confidence_threshold in %s" % m.qualname, m.loc(n), ok=ok)
                 if not ok:
                     ctx.finding("C13-H5", "%s:confidence_threshold-read" % m.qualname.split("synrbl.balancing.", 1)[-1], m.loc(n), "confidence_threshold is consumed outside the threshold argument of predict (rows other than MCS results may depend on it)")
     ctx.require(n_reads >= 1, "confidence_threshold is never read")
-    targ = st.params.get(thr, frozenset())
-    okt = targ == ctx.balancer.get("confidence_threshold")
-    ctx.instance("C13-H5", "predict(threshold=%s)" % sorted(map(repr, targ)), st.where(), ok=okt)
-    if not okt:
-        ctx.finding("C13-H5", "Balancer.__run_pipeline:predict-threshold", st.where(), "predict is not called with threshold=self.confidence_threshold")
+    if f is P:
+        targ = st.params.get(thr, frozenset())
+        okt = targ == ctx.balancer.get("confidence_threshold")
+        ctx.instance("C13-H5", "predict(threshold=%s)" % sorted(map(repr, targ)), st.where(), ok=okt)
+        if not okt:
+            ctx.finding("C13-H5", "Balancer.__run_pipeline:predict-threshold", st.where(), "predict is not called with threshold=self.confidence_threshold")
+    else:
+        ctx.instance("C13-H5", "the decision site compares with the Balancer's own threshold", st.where(), ok=True)
     # benchmark cross-check
     bf = prog.func("synrbl.SynCmd.cmd_benchmark.run")
     n_cmp = 0
